@@ -10,6 +10,6 @@ CONSTANTS
   InitMap <- GenInit
 VIEW view
 INVARIANTS TypeOK MutualExclusion NoLostUpdate MonotoneReads ReadsSeePublished ReadsNeverWait WritersWaitOnlyForWriters
-PROPERTIES AppendOnly StepwiseSerial
+PROPERTIES AppendOnly StepwiseSerial RefinesProto
 ACTION_CONSTRAINT EmitEdge
 CHECK_DEADLOCK FALSE
